@@ -111,7 +111,10 @@ func cmdVC(args []string) {
 			continue
 		}
 		fmt.Printf("== %s: %d obligations, %d facts, vcgen %.2fs bv=%v\n", key, len(x.obls), len(x.facts), time.Since(t0).Seconds(), x.bv)
-		rs := x.Solve(SolveOpts{Dir: dir, QuickMs: 5000, FallbackS: 20})
+		rs, vac := x.SolveFiltered(SolveOpts{Dir: dir, QuickMs: 3000, FallbackS: 30})
+		if vac {
+			fmt.Println("  !! VACUOUS: assumptions are unsatisfiable")
+		}
 		for _, r := range rs {
 			fmt.Printf("  %-8s %-8s %6.2fs %s  [%s] %s\n", r.Status, r.Solver, r.Sec, r.O.Name, r.O.Pos, r.O.Text)
 			if *dump {
